@@ -37,9 +37,20 @@ def one_step(c: Dict[str, Any]) -> Dict[str, Any]:
         layer = uu.Conv1d(fi, fo, k, dtype=torch.float64, **kw)
     with torch.no_grad():
         layer.weight.copy_(torch.randn(layer.weight.shape, generator=g, dtype=torch.float64))
-    if depth > 0:
+    if depth > 0:   # depth = number of layers of the depth container, however the container is built
+        from collections import OrderedDict
+
         others = [uu.Linear(1, 1) for _ in range(depth - 1)]
-        uu.DepthSequential(layer, *others)  # tags the parameters with depth = number of layers
+        how = c.get("container", "seq_args")
+        mods = [layer] + others
+        if how == "seq_args":
+            uu.DepthSequential(*mods)
+        elif how == "seq_dict":
+            uu.DepthSequential(OrderedDict((f"l{i}", m) for i, m in enumerate(mods)))
+        elif how == "list":
+            uu.DepthModuleList(mods)
+        else:
+            uu.DepthModuleList(m for m in mods)
     sign = lambda shape: (torch.randint(0, 2, shape, generator=g).to(torch.float64) * 2 - 1)
     x = sign((1, fi, k)) if kind == "conv1d" else sign((1, fi))
     # how the layer reaches the optimizer: alone, or in explicit groups together with other (wider / deeper) layers --
@@ -81,7 +92,8 @@ def gen_cases(rng: random.Random, n: int) -> List[Dict[str, Any]]:
         out.append({"kind": "update", "layer": kind, "fanIn": fi, "fanOut": fo, "k": k, "depth": depth,
                     "eta": 10 ** rng.uniform(-4, 0), "opt": rng.choice(["Adam", "AdamW"]),
                     "constraint": rng.choice(["default", "none"]), "seed": rng.randrange(1 << 30),
-                    "form": rng.choice(["plain", "plain", "group_after", "group_before", "two_groups", "tensor_lr_group"])})
+                    "form": rng.choice(["plain", "plain", "group_after", "group_before", "two_groups", "tensor_lr_group"]),
+                    "container": rng.choice(["seq_args", "seq_dict", "list", "generator"])})
     return out
 
 
@@ -89,7 +101,7 @@ def judge(rep: Report, c: Dict[str, Any], e: Dict[str, Any], obs: Dict[str, Any]
     f2 = Fraction(e["f2"][0], e["f2"][1])
     want = c["eta"] * math.sqrt(float(f2))
     worst = max(abs(a - want) / want for a in obs["abs"])
-    label = f"[{c.get('form', 'plain')}] {c['layer']} fan_in={c['fanIn']} fan_out={c['fanOut']} k={c['k']} depth={c['depth']} eta={c['eta']:.4g} {c['opt']} constraint={c['constraint']}"
+    label = f"[{c.get('form', 'plain')}, depth via {c.get('container', 'seq_args')}] {c['layer']} fan_in={c['fanIn']} fan_out={c['fanOut']} k={c['k']} depth={c['depth']} eta={c['eta']:.4g} {c['opt']} constraint={c['constraint']}"
     if worst > 1e-9 or not obs["sign_ok"]:
         rep.violation(
             f"output moved by {obs['abs'][0] / c['eta']:.9g} x eta (worst rel. deviation {worst:.3g}); spec UpdateSize2 = {f2} i.e. {math.sqrt(float(f2)):.9g} x eta for {label}",
